@@ -159,6 +159,21 @@ def random_programs(seed, count, depth_lo=3, depth_hi=5, names=None):
     return out
 
 
+_MULTI = {"natural_join", "concat_rows", "convert_records"}
+
+
+def quick_keep(label, one_in):
+    """quick-tier subsample of the two-step programs that does not depend on the position of a program in the enumeration (adding a step to the
+    vocabulary must not reshuffle what is covered): a program is kept when both of its steps combine tables (joins / concats / record
+    transforms: few, and where steps interact most), otherwise by a hash of its label"""
+    import hashlib
+
+    names = label.split("+")
+    if len(names) >= 2 and all(STEP.get(n, ("", ""))[1] in _MULTI for n in names):
+        return True
+    return int(hashlib.sha256(label.encode()).hexdigest(), 16) % one_in == 0
+
+
 def row_vectors(tables, max_rows, max_rows_multi=None):
     """row-count assignments per input table: every table gets 0..max (multi-table programs use max_rows_multi)"""
     m = max_rows if len(tables) <= 1 else (max_rows_multi if max_rows_multi is not None else max_rows)
